@@ -667,6 +667,19 @@ func (e *Env) call(n *SCall) *Val {
 		if err != nil {
 			return e.fail("%v", err)
 		}
+		if hl.Maps {
+			mt, ok := types.Unalias(t).Underlying().(*types.Map)
+			if !ok {
+				return e.fail("maps[...] needs a map type")
+			}
+			_, d1, v1, _ := vc.mapArrays(e.st, mt)
+			_, d0, v0, _ := vc.mapArrays(e.old, mt)
+			if d1 == d0 && v1 == v0 {
+				return &Val{T: tBool, S: "true"}
+			}
+			qn := fmt.Sprintf("q_um_%d", e.depth)
+			return &Val{T: tBool, S: fmt.Sprintf("(forall ((%s Int)) (! (=> (and (<= 0 %s) (< %s %s)) (and (= (select %s %s) (select %s %s)) (= (select %s %s) (select %s %s)))) :pattern ((select %s %s)) :pattern ((select %s %s))))", qn, qn, qn, e.old.alloc, d1, qn, d0, qn, v1, qn, v0, qn, d1, qn, v1, qn)}
+		}
 		_, h1 := vc.heap(e.st, t)
 		_, h0 := vc.heap(e.old, t)
 		if h1 == h0 {
